@@ -4,8 +4,11 @@ Real code (entered through the public API a user calls to checkpoint):
   io.SequenceDataSource(...).shard(...).iterate() / io.ShardedIterable(...).iterate():  `it.state`, `.from_state(state)`
   transform.TreeTransform(...).data_source(ds)....agg(...).make().iterate():            `it.state`, `.from_state(state)`,
                                                                                         `it.agg_result`
-Model: lean/MlModel/Model/Resume.lean; theorems: lean/MlModel/Properties/C10.lean; witnesses of the
-open findings: lean/MlModel/Witness/C10.lean.
+  chains of 1..5 named transforms (`.chain(TreeTransform(name=...)...)`, one runner each), an aggregate at any subset of
+  the stages: additionally `it.agg_state`, `StopIteration.value` (AggregateResult) and `it.agg_result` after every op
+  (harness/lib_resume_chain.py; model lean/MlModel/Model/ResumeChain.lean, wire name "resumechain")
+Model: lean/MlModel/Model/Resume.lean, ResumeChain.lean; theorems: lean/MlModel/Properties/C10.lean; witnesses of the
+open findings and of the seeded regression C10-m3: lean/MlModel/Witness/C10.lean.
 
 A history is a list of `take k` / `ckpt` (capture `it.state`, keep iterating) / `restore` (abandon the
 running iterator, build a new one from the last captured state).  What was delivered after the last
